@@ -339,7 +339,7 @@ func fmtRouting(rt map[string]multidb.Route) string {
 
 func RunMultiDB(c *sim.Ctx) {
 	nOps := knobInt(c, "ops", 2, 30)
-	c.ProbeDecl("overlapping_pattern_routes", "open_refused_for_table_conflict", "verify_failed_as_expected", "verify_passed_after_restart", "database_type_retired", "request_reopened_after_its_database_was_dropped")
+	c.ProbeDecl("overlapping_pattern_routes", "open_refused_for_table_conflict", "verify_failed_as_expected", "verify_passed_after_restart", "database_type_retired", "request_reopened_after_its_database_was_dropped", "restart_continued_although_verification_failed", "verify_with_a_request_recorded_in_two_databases")
 	disks := map[multidb.TypeName]*Disk{"A": NewDisk(), "B": NewDisk()}
 	mkProducers := func() map[multidb.TypeName]kvdb.FullDBProducer {
 		return map[multidb.TypeName]kvdb.FullDBProducer{"A": &fullProducer{d: disks["A"]}, "B": &fullProducer{d: disks["B"]}}
@@ -379,6 +379,21 @@ func RunMultiDB(c *sim.Ctx) {
 	}
 	opened := map[string]*rec{} // successfully opened requests (since their database was last dropped), with the route they were recorded under
 	everDropped := map[string]bool{}
+	// every table record the databases hold: (request, route it was recorded under).  One request has several
+	// records once the application went on with a changed routing although verification failed.
+	type recEntry struct {
+		req   string
+		route multidb.Route
+	}
+	var records []recEntry
+	hasRecord := func(req string, r multidb.Route) bool {
+		for _, e := range records {
+			if e.req == req && e.route.Type == r.Type && e.route.Name == r.Name && e.route.Table == r.Table {
+				return true
+			}
+		}
+		return false
+	}
 	byDB := func(r multidb.Route) string { return string(r.Type) + "/" + r.Name }
 
 	gen := func() (sim.Op, bool) {
@@ -391,10 +406,15 @@ func RunMultiDB(c *sim.Ctx) {
 		case 2:
 			return sim.Op{K: "drop", A: []int64{int64(c.Pick("req", len(requests)))}}, true
 		default:
-			return sim.Op{K: "restart", A: []int64{int64(c.Pick("edit", 3))}}, true
+			force := int64(0)
+			if c.Chance("continue_although_verification_fails", 300) {
+				force = 1
+			}
+			return sim.Op{K: "restart", A: []int64{int64(c.Pick("edit", 3)), force}}, true
 		}
 	}
 	restartN := 0
+	forcedRouting := false
 	for {
 		op, ok := c.Next(gen)
 		if !ok {
@@ -408,16 +428,19 @@ func RunMultiDB(c *sim.Ctx) {
 			st, err := prod.OpenDB(req)
 			c.Count("opens", 1)
 			// expected conflicts: another recorded request in the same database with a prefix-related table
-			conflict, hasConflict := "", false
-			for oreq, o := range opened {
-				if oreq == req {
-					if o.route != route {
-						conflict, hasConflict = oreq, true
+			conflict, conflictTable, hasConflict := "", "", false
+			for _, e := range records {
+				if byDB(e.route) != byDB(route) {
+					continue // recorded in another database: of no concern to this open
+				}
+				if e.req == req {
+					if e.route.Table != route.Table {
+						conflict, conflictTable, hasConflict = e.req, e.route.Table, true // re-assigning the table of a request
 					}
 					continue
 				}
-				if byDB(o.route) == byDB(route) && (bytes.HasPrefix([]byte(o.route.Table), []byte(route.Table)) || bytes.HasPrefix([]byte(route.Table), []byte(o.route.Table))) {
-					conflict, hasConflict = oreq, true
+				if bytes.HasPrefix([]byte(e.route.Table), []byte(route.Table)) || bytes.HasPrefix([]byte(route.Table), []byte(e.route.Table)) {
+					conflict, conflictTable, hasConflict = e.req, e.route.Table, true
 				}
 			}
 			if err != nil {
@@ -428,10 +451,13 @@ func RunMultiDB(c *sim.Ctx) {
 				continue
 			}
 			if hasConflict {
-				c.Violation("multidb-open", "multidb-open/overlap-accepted", "OpenDB(%q) -> %s/%s/%q succeeded although request %q is recorded in the same database with an overlapping table (%q)", req, route.Type, route.Name, route.Table, conflict, opened[conflict].route.Table)
+				c.Violation("multidb-open", "multidb-open/overlap-accepted", "OpenDB(%q) -> %s/%s/%q succeeded although request %q is recorded in the same database with an overlapping table (%q)", req, route.Type, route.Name, route.Table, conflict, conflictTable)
 			}
-			if old, ok := opened[req]; ok && old.route != route {
+			if old, ok := opened[req]; ok && old.route != route && !forcedRouting {
 				c.Violation("multidb-open", "multidb-open/reopen-moved", "re-opening %q yields %v, it was recorded as %v", req, route, old.route)
+			}
+			if !hasRecord(req, route) {
+				records = append(records, recEntry{req, route})
 			}
 			if everDropped[req] {
 				c.Probe("request_reopened_after_its_database_was_dropped")
@@ -475,6 +501,13 @@ func RunMultiDB(c *sim.Ctx) {
 					everDropped[oreq] = true
 				}
 			}
+			kept := records[:0]
+			for _, e := range records {
+				if byDB(e.route) != byDB(o.route) {
+					kept = append(kept, e)
+				}
+			}
+			records = kept
 		case "restart":
 			restartN++
 			edit := int(op.A[0]) % 3
@@ -491,10 +524,13 @@ func RunMultiDB(c *sim.Ctx) {
 			checkDeterminism(nrt, np)
 			// expected verdict of Verify: some recorded request is now routed elsewhere
 			moved := ""
-			for req, o := range opened {
-				if nr := np.RouteOf(req); nr.Type != o.route.Type || nr.Name != o.route.Name || nr.Table != o.route.Table {
-					moved = fmt.Sprintf("%q: %s/%s/%q -> %s/%s/%q", req, o.route.Type, o.route.Name, o.route.Table, nr.Type, nr.Name, nr.Table)
+			for _, e := range records {
+				if nr := np.RouteOf(e.req); nr.Type != e.route.Type || nr.Name != e.route.Name || nr.Table != e.route.Table {
+					moved = fmt.Sprintf("%q: %s/%s/%q -> %s/%s/%q", e.req, e.route.Type, e.route.Name, e.route.Table, nr.Type, nr.Name, nr.Table)
 				}
+			}
+			if len(records) > len(opened) {
+				c.Probe("verify_with_a_request_recorded_in_two_databases")
 			}
 			err := np.Verify()
 			c.Count("verifications", 1)
@@ -506,7 +542,17 @@ func RunMultiDB(c *sim.Ctx) {
 			}
 			if err != nil {
 				c.Probe("verify_failed_as_expected")
-				continue // the application would refuse to start: keep the old producer
+				if len(op.A) < 2 || op.A[1] != 1 {
+					continue // the application refuses to start: keep the old producer
+				}
+				// ... or goes on regardless (or never verifies): requests get recorded again where the new routing puts them
+				forcedRouting = true
+				c.Probe("restart_continued_although_verification_failed")
+				prod, rt = np, nrt
+				for req := range opened {
+					delete(opened, req) // handles of the old process are gone; requests are opened again by later operations
+				}
+				continue
 			}
 			c.Probe("verify_passed_after_restart")
 			prod, rt = np, nrt
